@@ -59,12 +59,15 @@ def attrs_of(obj):
     return out
 
 
-def _cells(arr):
-    """Return (enc, cells, mask)."""
+def _cells(arr, exact=False):
+    """Return (enc, cells, mask).  exact=True: floats as hex bit patterns."""
     a = np.ma.asarray(arr)
     m = np.ma.getmaskarray(a).ravel()
     d = np.ma.getdata(a).ravel()
     mask = [int(x) for x in m]
+    if len(mask) > 0 and all(mask):
+        # nothing but masked cells: their payload is not part of the state
+        return 'int', [0] * len(mask), mask
     if d.dtype.kind in 'SU':
         return 'str', [x.decode('latin1') if isinstance(x, bytes) else str(x)
                        for x in d.tolist()], mask
@@ -72,7 +75,7 @@ def _cells(arr):
         return 'str', [repr(x) for x in d.tolist()], mask
     if d.dtype.kind == 'b':
         return 'int', [int(x) for x in d], mask
-    ok = True
+    ok = not (exact and d.dtype.kind == 'f')
     cells = []
     with np.errstate(all='ignore'):
         for x, mm in zip(d.tolist(), mask):
@@ -95,7 +98,7 @@ def _cells(arr):
                 break
     if ok:
         return 'int', cells, mask
-    rat = _rational(d, mask)
+    rat = None if exact else _rational(d, mask)
     if rat is not None:
         return rat
     d2 = np.ascontiguousarray(d)
@@ -129,7 +132,7 @@ def _rational(d, mask):
     return 'rat', (nums, dens), mask
 
 
-def project_var(name, v, data=True):
+def project_var(name, v, data=True, exact=False):
     rec = {'name': str(name)}
     try:
         rec['dims'] = [str(d) for d in v.dimensions]
@@ -150,19 +153,20 @@ def project_var(name, v, data=True):
     rec['shape'] = [int(s) for s in np.shape(arr)]
     dt = getattr(v, 'dtype', None) or np.asarray(arr).dtype
     try:
-        rec['dt'] = np.dtype(dt).char
+        # canonical type code ('q' and 'l' are the same 64-bit integer)
+        rec['dt'] = np.dtype(np.dtype(dt).str).char
     except Exception:
         rec['dt'] = str(dt)
     rec['masked'] = bool(isinstance(arr, np.ma.MaskedArray))
     if data:
-        rec['enc'], rec['cells'], rec['mask'] = _cells(arr)
+        rec['enc'], rec['cells'], rec['mask'] = _cells(arr, exact)
         if rec['enc'] == 'rat':
             rec['cells'], rec['den'] = rec['cells']
     rec['attrs'] = attrs_of(v)
     return rec
 
 
-def project(f, data=True):
+def project(f, data=True, exact=False):
     dims = []
     for k, d in f.dimensions.items():
         try:
@@ -172,7 +176,7 @@ def project(f, data=True):
         dims.append({'n': str(k), 'len': int(len(d)), 'u': unl})
     vs = []
     for k in list(f.variables.keys()):
-        vs.append(project_var(k, f.variables[k], data=data))
+        vs.append(project_var(k, f.variables[k], data=data, exact=exact))
     coords = []
     try:
         coords = sorted(str(c) for c in f.getCoords())
